@@ -164,17 +164,6 @@ def pox_matches(pm, frame, in_port, pkm=None):
   return bool(pm.matches_with_wildcards(pkm, consider_other_wildcards=False))
 
 
-def _widen(m, f):
-  m2 = dict(m)
-  if f == "nw_src":
-    m2["wildcards"] = (m["wildcards"] & ~M.OFPFW_NW_SRC_MASK) | (32 << M.OFPFW_NW_SRC_SHIFT)
-  elif f == "nw_dst":
-    m2["wildcards"] = (m["wildcards"] & ~M.OFPFW_NW_DST_MASK) | (32 << M.OFPFW_NW_DST_SHIFT)
-  else:
-    m2["wildcards"] = m["wildcards"] | M.BIT_OF[f]
-  return m2
-
-
 def _zone(pktf):
   notes = pktf.get("notes", ())
   for n in ("snap", "llc", "fragment"):
@@ -183,56 +172,29 @@ def _zone(pktf):
   return "plain"
 
 
-_BLAME_ORDER = ["tp_dst", "tp_src", "nw_dst", "nw_src", "nw_tos", "nw_proto", "dl_type", "dl_vlan_pcp", "dl_vlan",
-                "dl_dst", "dl_src", "in_port"]
-
-
-def _widen_all(m, fields):
-  for f in fields:
-    m = _widen(m, f)
-  return m
-
-
-def _wider_word(w, fields):
-  for f in fields:
-    if f == "nw_src":
-      w = (w & ~M.OFPFW_NW_SRC_MASK) | (32 << M.OFPFW_NW_SRC_SHIFT)
-    elif f == "nw_dst":
-      w = (w & ~M.OFPFW_NW_DST_MASK) | (32 << M.OFPFW_NW_DST_SHIFT)
-    else:
-      w |= M.BIT_OF[f]
-  return w
-
-
 def _blame_refused(m, pkm):
-  """POX refuses a frame the reference accepts: the smallest set of fields (dependent fields first) whose
-  additional wildcarding makes POX accept it.  Diagnostic only (it selects the violation key): the
-  widened matches are clones of the decoded match whose wildcard word is recomputed the way
-  ofp_match.unpack(flow_mod=True) computes it."""
-  base = pox_decode(M.pack_match(m))
-
-  def says(fields):
-    c = base.clone()
+  """POX refuses a frame the reference accepts: the fields on which POX's own field-by-field comparison
+  fails, in ofp_match order.  Diagnostic only (it selects the violation key); it mirrors the comparisons of
+  matches_with_wildcards on the decoded objects."""
+  of = _POX[0]
+  pm = pox_decode(M.pack_match(m))
+  bad = []
+  for f in M.MATCH_FIELDS:
     try:
-      c.wildcards = c._normalize_wildcards(c._unwire_wildcards(_wider_word(m["wildcards"], fields)))
-      return bool(c.matches_with_wildcards(pkm, consider_other_wildcards=False))
+      if f in ("nw_src", "nw_dst"):
+        mine = getattr(pm, "get_" + f)()
+        if mine[0] is None:
+          continue
+        other = getattr(pkm, "get_" + f)()
+        if mine[1] > other[1] or other[0] is None or not of.IPAddr(other[0]).inNetwork((mine[0], mine[1])):
+          bad.append(f)
+      else:
+        mine = getattr(pm, f)
+        if mine is not None and mine != getattr(pkm, f):
+          bad.append(f)
     except Exception:
-      return None
-  for f in _BLAME_ORDER:
-    if says([f]):
-      return [f]
-  done = []
-  for f in _BLAME_ORDER:
-    done.append(f)
-    if says(done):
-      break
-  else:
-    return []
-  for f in list(done):
-    rest = [x for x in done if x != f]
-    if says(rest):
-      done = rest
-  return [f for f in M.MATCH_FIELDS if f in done]
+      bad.append(f)
+  return bad
 
 
 def _mismatch_key(m, frame, in_port, pktf, ref, clause="match"):
